@@ -29,6 +29,22 @@ Directives
   //@@ end
 Inside contract text a line `//# label` names the clauses that follow it.
 
+Opt-in generic rewrites (fn options; additive, used by unit odsxml; each application is logged in the evidence)
+  r11   R11: a match-arm PATTERN that is a `QName` tuple-struct pattern over byte-string literals (Verus rejects byte-string-literal
+        patterns, and "a match arm containing both an or-pattern and a match-guard"):
+            QName(b"x") => ..                      ->  __k if __k == QName(b"x") => ..
+            QName(b"x") if G => ..                 ->  __k if (__k == QName(b"x")) && (G) => ..
+            QName(b"x" | b"y") [if G] => ..        ->  __k if (__k == QName(b"x") || __k == QName(b"y")) [&& (G)] => ..
+        Applied only where the text has exactly this shape AND sits at the start of an arm (preceded by `{`, `,` or `}`), so that the
+        *expression* `e.name() == QName(b"x")` inside a guard is left alone.  Valid because (a) quick_xml::name::QName derives
+        Clone/Copy/PartialEq/Eq over its single field `&[u8]`, so `k == QName(lit)` holds exactly when the pattern `QName(lit)` matches k
+        (a byte-string-literal pattern matches a slice iff the bytes are equal); (b) the scrutinee is a place of a Copy type, so the
+        binding `__k` copies it and the arm body can still use the scrutinee; (c) arm order and guards are kept, `&&` evaluates the
+        original guard only when the pattern test succeeded -- as `PAT if G` does; the literals stay verbatim.
+  r12   R12: a tuple-variant constructor used as a function value in `.map_err(Type::Variant)` (Verus: "using a datatype constructor
+        as a function value" is unsupported) is eta-expanded, with the closure's specification stating just that:
+            .map_err(Type::Variant)  ->  .map_err(|__e| -> (__r: Type) ensures __r == Type::Variant(__e) { Type::Variant(__e) })
+
 Exit codes: 0 ok, 2 lost anchor / unsupported (never a violation).
 """
 import json, os, re, subprocess, sys, hashlib
@@ -502,6 +518,49 @@ def render_fn(fs, out, unit, log):
         new = f"{m.group(1)}{{ let __r9: bool = {m.group(4)}; {m.group(2)} = {m.group(2)} {op} __r9; }}"
         ins(st, new, {"type": "src", "file": relfile, "fn": flabel, "unit": unit, "rule": "R9"}, dl=en - st)
         log["rewrites"].append({"rule": "R9", "fn": flabel, "from": text[st:en].strip(), "to": new.strip()})
+    if fs.opts.get("r11"):
+        # R11 (see module docstring): QName byte-string-literal arm patterns -> binding + equality guard
+        lit = r'b"(?:[^"\\]|\\.)*"'
+        for m in re.finditer(r"(?P<pre>[{},]\s*)QName\(\s*(?P<alts>" + lit + r"(?:\s*\|\s*" + lit + r")*)\s*\)(?P<post>\s*(?:if\b|=>))", text[body_s:body_e]):
+            st = body_s + m.start() + len(m.group("pre"))
+            alts = re.findall(lit, m.group("alts"))
+            cond = " || ".join(f"__k == QName({a})" for a in alts)
+            if m.group("post").strip() == "=>":
+                en = body_s + m.end()
+                new = f"__k if {cond} =>"
+            else:
+                # guard text: up to the next `=>` outside brackets / strings
+                j, depth, n = body_s + m.end(), 0, body_e
+                while j < n:
+                    ch = text[j]
+                    if ch == '"':
+                        j += 1
+                        while j < n and text[j] != '"':
+                            if text[j] == "\\":
+                                j += 1
+                            j += 1
+                    elif ch in "([{":
+                        depth += 1
+                    elif ch in ")]}":
+                        depth -= 1
+                    elif ch == "=" and text[j : j + 2] == "=>" and depth == 0:
+                        break
+                    j += 1
+                if j >= n:
+                    raise LostAnchor(f"fn {fs.path}: R11: guard without `=>`")
+                guard = text[body_s + m.end() : j].strip()
+                en = j + 2
+                new = f"__k if ({cond}) && ({guard}) =>"
+            ins(st, new, {"type": "src", "file": relfile, "fn": flabel, "unit": unit, "rule": "R11"}, dl=en - st)
+            log["rewrites"].append({"rule": "R11", "fn": flabel, "from": norm_ws(text[st:en]), "to": new})
+    if fs.opts.get("r12"):
+        # R12 (see module docstring): `.map_err(Type::Variant)` -> eta-expanded closure with its specification
+        for m in re.finditer(r"\.map_err\(\s*([A-Z]\w*)::([A-Z]\w*)\s*\)", text[body_s:body_e]):
+            st, en = body_s + m.start(), body_s + m.end()
+            ty, va = m.group(1), m.group(2)
+            new = f".map_err(|__e| -> (__r: {ty}) ensures __r == {ty}::{va}(__e) {{ {ty}::{va}(__e) }})"
+            ins(st, new, {"type": "src", "file": relfile, "fn": flabel, "unit": unit, "rule": "R12"}, dl=en - st)
+            log["rewrites"].append({"rule": "R12", "fn": flabel, "from": text[st:en], "to": new})
     if fs.opts.get("r4"):
         for m in re.finditer(r"(?<![\w:!])format!\s*\(", text[body_s:body_e]):
             st = body_s + m.start()
